@@ -41,7 +41,7 @@ var c20Inline = map[string]string{
 type c20Case struct {
 	Files   []string `json:"files"`   // template names, in Syntax order
 	Dirs    []int    `json:"dirs"`    // directory (0/1) of each file
-	Edits   []int    `json:"edits"`   // 0 none, 1 append a declaration needing a new import, 2 remove the last declaration, 3 append references to two packages with one name
+	Edits   []int    `json:"edits"`   // 0 none, 1 append a declaration needing a new import, 2 remove the last declaration, 3 append references to two packages with one name, 4 hand-appended unsorted import spec, 5 declaration with non-canonical number literals (4, 5: single-file packages)
 	Choices []int    `json:"choices"` // fault choices (one per resolver call)
 }
 
@@ -49,7 +49,7 @@ func init() {
 	core.Register(&core.Prop{
 		ID:    "C20",
 		Level: "fault_enumeration",
-		Rule: "hand-built decorator.Package values (1-3 files chosen from 8 import-bearing canonical sources (two use different packages of the same name, one dot-imports one of them, one carries a //line directive above its package clause), in 1-2 directories of a fresh temporary tree that also holds unrelated files) x every assignment of {unedited, declaration needing a new import appended, last declaration removed, declarations referring to two equally named packages appended} to the files " +
+		Rule: "hand-built decorator.Package values (1-3 files chosen from 8 import-bearing canonical sources (two use different packages of the same name, one dot-imports one of them, one carries a //line directive above its package clause), in 1-2 directories of a fresh temporary tree that also holds unrelated files) x every assignment of {unedited, declaration needing a new import appended, last declaration removed, declarations referring to two equally named packages appended} to the files (single-file packages also: an import spec appended by hand out of order, a declaration whose number literals gofmt would respell) " +
 			"x every position of the package-name resolver's call sequence failed (choice tree, one failure), through Package.SaveWithResolver on the real file system, plus one history of Package.Save with its default resolver (the go tool) on a small module (save; dependency made unresolvable; two failing saves; dependency restored; save); oracle: directory snapshot (paths, bytes, modes) before/after: no path appears or disappears, " +
 			"each saved file equals an independently computed import-managed print of a clone, unedited files are byte-identical, on failure the error is returned (wrapping the resolver's), the failing file and every later file are untouched; non-trivial = case with an edit or a failure",
 		Assumptions: []string{"decorator.Load itself (go/packages) is not exercised: packages are built by hand with the same Decorator/Filenames/Syntax fields Load fills in"},
@@ -198,16 +198,23 @@ func runC20(ctx *core.Ctx, unit int) {
 			for i := 1; i < n; i++ {
 				dirs[i] = (dm >> (i - 1)) & 1
 			}
+			// single-file packages also get the edits a caller makes without the library's help (4: an import spec
+			// appended by hand to the first import declaration, out of order; 5: a declaration with number
+			// literals in a spelling gofmt normalises)
+			base := 4
+			if n == 1 {
+				base = 6
+			}
 			ne := 1
 			for i := 0; i < n; i++ {
-				ne *= 4
+				ne *= base
 			}
 			for em := 0; em < ne; em++ {
 				edits := make([]int, n)
 				x := em
 				for i := range edits {
-					edits[i] = x % 4
-					x /= 4
+					edits[i] = x % base
+					x /= base
 				}
 				if ctx.Expired() {
 					ctx.Cut("configurations")
@@ -311,6 +318,19 @@ func c20Exec(cs c20Case, c *explore.Chooser) core.Outcome {
 			}}})
 		case 2:
 			f.Decls = f.Decls[:len(f.Decls)-1]
+		case 4:
+			for _, d := range f.Decls {
+				if gd, ok := d.(*dst.GenDecl); ok && gd.Tok == token.IMPORT {
+					gd.Lparen = true
+					gd.Specs = append(gd.Specs, &dst.ImportSpec{Name: dst.NewIdent("_"), Path: &dst.BasicLit{Kind: token.STRING, Value: `"a.a/first"`}})
+					break
+				}
+			}
+		case 5:
+			f.Decls = append(f.Decls, &dst.GenDecl{Tok: token.VAR, Specs: []dst.Spec{&dst.ValueSpec{
+				Names:  []*dst.Ident{dst.NewIdent(fmt.Sprintf("lit%d", i))},
+				Values: []dst.Expr{&dst.BinaryExpr{X: &dst.BasicLit{Kind: token.INT, Value: "0XFF"}, Op: token.ADD, Y: &dst.BasicLit{Kind: token.FLOAT, Value: "1E3"}}},
+			}}})
 		case 3:
 			// references to both packages named x: the restorer has to generate a conflict alias
 			for j, p := range []string{"a.b/x", "c.d/x"} {
